@@ -132,7 +132,7 @@ type vfC01Val struct {
 }
 
 func vfC01Value() vfC01Val {
-	switch vfChoose("value-kind", 11) {
+	switch vfChoose("value-kind", 12) {
 	case 0:
 		return vfC01Val{v: vfIRI("iri"), canon: true}
 	case 1:
@@ -165,6 +165,11 @@ func vfC01Value() vfC01Val {
 		return vfC01Val{v: map[string]interface{}{"type": "VfUnknownType", "id": vfIRI("nested.id"), "vfFoo": []interface{}{1.0, "x"}}, canon: true}
 	case 8:
 		return vfC01Val{v: []interface{}{[]interface{}{vfIRI("iri")}, vfIRI("iri")}, hasNest: true}
+	case 10:
+		// canonical xsd:duration texts (concrete: the duration codec's regular expression and arithmetic are
+		// executed for real); on every other property they are plain strings
+		d := []string{"PT3M25S", "P1DT12H30M5S", "PT45S", "P2Y3M"}
+		return vfC01Val{v: d[vfChoose("duration", len(d))], canon: true}
 	case 9:
 		// the empty list
 		return vfC01Val{v: []interface{}{}, canon: true, emptyList: true}
